@@ -9,6 +9,7 @@ import (
 	"crypto/ed25519"
 	"crypto/sha256"
 	"crypto/x509"
+	"encoding/json"
 	"fmt"
 	mrand "math/rand"
 	"sort"
@@ -660,7 +661,7 @@ func unitC10binance(e common.Env, p *common.Part) {
 				}
 			}
 		}
-		for _, m := range fuzzBasic(shares[1], rng, e.Pick(400, 3000)) {
+		for _, m := range append(fuzzBasic(shares[1], rng, e.Pick(2500, 6000)), jsonEdits(shares[1])...) {
 			m := m
 			if msg := guardedB(func() {
 				a := newAdapter(kind, 1)
@@ -693,4 +694,31 @@ func nil2tpk(w *wiring, shares map[uint16][]byte) []byte {
 
 func fuzzBasic(valid []byte, rng *mrand.Rand, budget int) [][]byte {
 	return fuzz.Basic(valid, 64, rng, budget)
+}
+
+// jsonEdits: structure-aware edits of the JSON stored data: each top-level member removed, set to null, to an empty
+// object / array / string / number.
+func jsonEdits(valid []byte) [][]byte {
+	var obj map[string]json.RawMessage
+	if json.Unmarshal(valid, &obj) != nil {
+		return nil
+	}
+	var out [][]byte
+	for k := range obj {
+		for _, repl := range []string{"", "null", "{}", "[]", "\"\"", "0", "[null]", "[null,null,null]", "{\"Curve\":null}"} {
+			c := map[string]json.RawMessage{}
+			for k2, v := range obj {
+				c[k2] = v
+			}
+			if repl == "" {
+				delete(c, k)
+			} else {
+				c[k] = json.RawMessage(repl)
+			}
+			if b, err := json.Marshal(c); err == nil {
+				out = append(out, b)
+			}
+		}
+	}
+	return out
 }
